@@ -211,7 +211,7 @@ contract(
         "    and events2[i].duration == old(events2[i].duration) and events2[i].data == old(events2[i].data) for i in range(len(events2)))",
     ],
     native_ensures=NATIVE,
-    modifies=["alloc"],
+    modifies=["alloc"], writes_fresh=["*"],
     raises=[],
     loops={0: dict(
         invariant=[
